@@ -242,7 +242,7 @@ class Graph:
                     if not foreign:
                         src.relabel = lambda subst, p=p, sp=sp: self.label(p, sp, subst=subst)
                     src.discharged = guarded_arith(self.facts, p, sp, kind) or enumerate_index(self.facts, p, sp, kind) or \
-                        bounded_operands(self.facts, p, sp, kind) or \
+                        bounded_operands(self.facts, p, sp, kind) or bounded_index(self.facts, p, sp, kind) or \
                         (consumed_prefix(self.facts, p, sp, 'sub') if kind == 'Overflow(Sub)' else None)
                     out.append(src)
                 elif t['k'] in ('Call', 'TailCall'):
@@ -528,6 +528,26 @@ def _mutated(B, e):
     b = _hirq.root_local(_hirq.peel_refs(e)) if e['k'] != 'Lit' else None
     return b is not None and bool(B.assigns.get(b))
 
+def _stored_only_here(B, l, n):
+    """`x += c` / `x -= c` (the node n) on a local x - a `mut` parameter, a `let mut` - whose only store in the whole body is this
+    very statement, which stands outside every loop and closure and is therefore executed at most once per call, with x never
+    borrowed mutably: when it is evaluated x still holds the value every earlier guard tested, so a comparison that holds at the
+    operation (known_comparisons: enclosing branches and earlier early exits, all evaluated before it) speaks about the operand."""
+    l = _hirq.peel_refs(l)
+    if n['k'] != 'AssignOp' or l['k'] != 'Path' or l.get('res') != 'local':
+        return False
+    b = l['bind']
+    if [id(x) for x in B.assigns.get(b, [])] != [id(n)]:
+        return False
+    if any(a['k'] in ('Loop', 'While', 'For', 'Closure') for a, _role in B.context(n)):
+        return False
+    for x in B.nodes:
+        if x['k'] == 'AddrOf' and x.get('mut') and _hirq.root_local(_hirq.peel_refs(x['e'])) == b:
+            return False
+        if str(x.get('adj_ty') or '').startswith('&mut') and x['k'] in ('Path', 'Field', 'Index') and _hirq.root_local(x) == b:
+            return False
+    return True
+
 def guarded_arith(facts, body_path, src_sp, kind):
     """D2: an Overflow(Sub)/Overflow(Add) assert on `a - b` / `a + c` is discharged when a comparison that holds
     at the operation excludes the overflow.  Returns a reason string or None."""
@@ -543,7 +563,7 @@ def guarded_arith(facts, body_path, src_sp, kind):
     if op not in ('Add', 'Sub'):
         return None
     l, r = n['l'], n['r']
-    if _mutated(B, l) or _mutated(B, r):
+    if _mutated(B, r) or (_mutated(B, l) and not _stored_only_here(B, l, n)):
         return None
     facts_here = known_comparisons(B, n)
     def holds(a, rel, b):
@@ -567,7 +587,7 @@ def guarded_arith(facts, body_path, src_sp, kind):
             return 'guarded: a comparison that holds at the subtraction gives minuend >= subtrahend'
     if op == 'Add' and kind == 'Overflow(Add)':
         c = _hirq.const_eval(facts, r)
-        ty = _hirq.strip_refs(n.get('ty') or '')
+        ty = _hirq.strip_refs((n['l'] if n['k'] == 'AssignOp' else n).get('ty') or '')      # (`x += c` itself has type (): computed in x's type)
         mx = INT_MAX.get(ty)
         if isinstance(c, int) and mx is not None and c >= 0:
             bound = {'k': 'Lit', 'v': mx - c}
@@ -649,6 +669,30 @@ def bounded_operands(facts, body_path, src_sp, kind):
     l, r = upper_bound(facts, B, n['l']), upper_bound(facts, B, n['r'])
     if l is not None and r is not None and l + r <= INT_MAX[ty]:
         return 'operands bounded by construction: at most %d + %d, within %s' % (l, r, ty)
+    return None
+
+def bounded_index(facts, body_path, src_sp, kind):
+    """D8: a BoundsCheck assert on `a[i]` where `a` is an array whose length N is part of its type (`[T; N]`, a constant table)
+    is discharged when the index is bounded by construction below N (see upper_bound): a u8 shifted right by k has at most
+    2^(8-k) values (`TABLE[(octet >> 5) as usize]` with N = 8), `x & m` is at most m, `x % N` is below N.  As in D7 nothing is read
+    off a guard: the bound is a property of the index expression's form and the length a property of the array's type, both
+    re-read on every run - a table that loses a row, or a shift that becomes smaller, turns the source into a violation."""
+    rec = hir_owner(facts, body_path)
+    if rec is None or kind.split('(')[0] != 'BoundsCheck':
+        return None
+    B = _hirq.Body(facts, rec)
+    cands = [n for n in B.nodes if n['k'] == 'Index' and n.get('sp') and
+             (list(n['sp'][:5]) == list(src_sp[:5]) or (n['sp'][0] == src_sp[0] and n['sp'][3:5] == src_sp[3:5]))]
+    if len(cands) != 1:
+        return None
+    ix = cands[0]
+    m = re.match(r'^\[.+; (\d+)\]$', _hirq.strip_refs(ix['e'].get('ty') or ''))
+    if not m:
+        return None
+    n = int(m.group(1))
+    ub = upper_bound(facts, B, ix['idx'])
+    if ub is not None and ub < n:
+        return 'index bounded by construction: at most %d, the array has %d elements by its type' % (ub, n)
     return None
 
 def enumerate_index(facts, body_path, src_sp, kind):
